@@ -1,5 +1,6 @@
 """C03: every setting comes from the highest-precedence level that defines it;
 load-order irrelevance; first existing suffix only."""
+import copy
 import itertools
 
 from .. import config_common as cc
@@ -16,6 +17,7 @@ def supplied_levels(case):
     """Python twin of Spec.C03Spec.supplied_of, used only for statistics
     (non-triviality, histogram) -- never for the verdict."""
     init, ops, fs = case["init"], case["ops"], case["fs"]
+    init = cc.effective_init(init)
     lv = {"defaults": init.get("defaults") or {}, "overrides": init.get("overrides") or {},
           "collection": {}}
     proj, rt = init.get("proj"), init.get("rt")
@@ -67,7 +69,7 @@ class C03(Prop):
     rule = ("one schema per case fixes which paths are sections/leaves; each of the 8 non-env levels is "
             "absent or a random sub-tree of it (overlap forced, depth<=4, all leaf kinds); system/user/"
             "project/runtime levels are real files (yaml/yml/json/py, several candidates with different "
-            "contents at once, occasionally an empty YAML file or an unreadable candidate); the "
+            "contents at once, occasionally an empty YAML file, an unopenable candidate (a directory / a symlink loop) or a damaged one its loader cannot parse); dict levels are handed over as plain dicts, as types.MappingProxyType or as a section of another config; 10% of the cases start from the class's stock global_defaults(); the "
             "environment names settings of the schema; levels are fed through the constructor or the "
             "load_* calls in a random order -- 45% of the cases with some or all loads deferred (merge=False) and "
             "then an explicit merge() or load_shell_env() at the end --, load_shell_env last.  Non-trivial = at least 3 levels "
@@ -117,12 +119,22 @@ class C03(Prop):
                         fs.append([loc, sfx, {"empty": 1}])      # empty YAML document / JSON null
                     elif r < 0.03:
                         fs.append([loc, sfx, {"ioerr": 1}])
+                    elif r < 0.05:
+                        fs.append([loc, sfx, {"bad": 1}])        # damaged: its loader cannot parse it
+                    elif r < 0.055 and sfx != "py":
+                        # exists, cannot be opened (ELOOP).  Not for .py: load_source() asks
+                        # os.path.exists first and answers {} when that says no (the recorded
+                        # quirk: a .py candidate that does not "exist" loads as empty)
+                        fs.append([loc, sfx, {"loop": 1}])
                     else:
                         fs.append([loc, sfx, {"data": inst(FILE_KINDS)}])
         rt = None
         if present["runtime"]:
             rt = ["rtA", rng.choice(cc.SUFFIXES)]
-            if rng.random() < 0.9:
+            r = rng.random()
+            if r < 0.03:
+                fs.append([rt[0], rt[1], {"bad": 1}])
+            elif r < 0.9:
                 fs.append([rt[0], rt[1], {"data": inst(FILE_KINDS)}])
             if rng.random() < 0.2:     # a sibling with another suffix must be ignored
                 other = rng.choice([s for s in cc.SUFFIXES if s != rt[1]])
@@ -133,6 +145,13 @@ class C03(Prop):
         lazy = rng.random() < 0.5
         init = {"defaults": None, "overrides": None, "proj": None, "rt": None, "lazy": lazy,
                 "tilde": rng.random() < 0.25}
+        r = rng.random()
+        if r < 0.10:
+            init["mapkind"] = "mp"        # dict levels handed over as types.MappingProxyType
+        elif r < 0.16:
+            init["mapkind"] = "proxy"     # ... as a section (DataProxy) of another config
+        if rng.random() < 0.10:
+            init["stock"] = True          # the class's stock global_defaults() underneath
         pre, loads = [], []
         if present["defaults"]:
             if rng.random() < 0.5:
@@ -169,6 +188,9 @@ class C03(Prop):
                 loads.append(["load_user"])
         elif rng.random() < 0.2:
             loads.append([rng.choice(["load_system", "load_user"])])   # no-op: already loaded
+        if init.get("stock") and init["defaults"] is not None:
+            loads.append(["load_defaults", init["defaults"]])   # stock defaults first, replaced later
+            init["defaults"] = None
         rng.shuffle(pre)
         rng.shuffle(loads)
         # re-pointing: after the project / runtime file was loaded, point elsewhere
@@ -290,7 +312,7 @@ class C03(Prop):
         else:
             o = "(Ok %s)" % snap(obs["ok"])
         mids = ct.lst([snap(m) for m in obs.get("mids", [])])
-        return "(mk %s %s %s %s %s)" % (cc.c_fs(case["fs"]), cc.c_init(case["init"]),
+        return "(mk %s %s %s %s %s)" % (cc.c_fs(case["fs"]), cc.c_init(cc.effective_init(case["init"])),
                                         cc.c_ops(case["ops"]), o, mids)
 
     # -- statistics --------------------------------------------------------
@@ -353,7 +375,81 @@ class C03(Prop):
     # -- extra checks ------------------------------------------------------
     def extra_checks(self, tier, seed):
         return [self.check_formats(seed, 60 if tier == "quick" else 600),
-                self.check_executor(seed, 40 if tier == "quick" else 400)]
+                self.check_executor(seed, 40 if tier == "quick" else 400),
+                self.check_rewritten(seed, 30 if tier == "quick" else 300),
+                self.check_nonstring_keys()]
+
+    def check_nonstring_keys(self):
+        """F-C03a: a level with a non-string key (YAML ``1: x``) makes load_shell_env()
+        raise TypeError while it builds variable names."""
+        res = {"name": "nonstring-keys-env", "evaluations": 0, "failures": [],
+               "note": "witness of the known finding F-C03a (not modelled: model keys are strings)"}
+        for data in ({"a": {1: "x"}}, {2: True, "b": 1}):
+            case = {"fs": [], "init": {"lazy": True}, "ops": []}
+            s = cc.Session(case)
+            try:
+                cfg = s.construct()
+                cfg.load_defaults(copy.deepcopy(data))
+                res["evaluations"] += 1
+                try:
+                    s.run_op(cfg, ["load_shell_env", {}])
+                except TypeError as e:
+                    res["failures"].append({"finding": "F-C03a", "case": {"defaults": repr(data)},
+                                            "what": "load_shell_env() raised TypeError: %s" % e})
+                except Exception as e:
+                    res["failures"].append({"case": {"defaults": repr(data)},
+                                            "what": "load_shell_env() raised %r" % (e,)})
+            finally:
+                s.close()
+        return res
+
+    def check_rewritten(self, seed, n):
+        """A file level holds what the file holds WHEN IT IS LOADED: a second Config
+        reading the same path after the file was rewritten (same path, new content,
+        same second) shows the new content; so does a reload of the same object
+        after re-pointing to the same location."""
+        import os
+        import random
+        rng = random.Random(seed + 13)
+        res = {"name": "rewritten-file-reread", "evaluations": 0, "failures": [],
+               "note": "test: two Configs on one scratch directory, a file rewritten in between "
+                       "(modification time kept within the same second)"}
+        for _ in range(n):
+            sfx = rng.choice(cc.SUFFIXES)
+            loc = rng.choice(["sys", "usr", "projA", "rtA"])
+            d1 = {"a": {"b": rng.randint(1, 50)}, "k": "one"}
+            d2 = {"a": {"b": d1["a"]["b"] + 100, "c": True}, "k": "two"}
+            init = {"lazy": False, "proj": "projA" if loc == "projA" else None,
+                    "rt": ["rtA", sfx] if loc == "rtA" else None}
+            ops = [["load_project"]] if loc == "projA" else ([["load_runtime"]] if loc == "rtA" else [])
+            case = {"fs": [[loc, sfx, {"data": d1}]], "init": init, "ops": ops}
+            s = cc.Session(case)
+            try:
+                c1 = s.construct()
+                for op in ops:
+                    s.run_op(c1, op)
+                v1 = cc.view_of(c1)
+                path = cc.file_path(s.root, loc, sfx)
+                st = os.stat(path)
+                cc.write_fs(s.root, [[loc, sfx, {"data": d2}]])
+                # keep the modification time inside the same second (a quick rewrite)
+                os.utime(path, ns=(st.st_atime_ns, (st.st_mtime_ns // 10**9) * 10**9 + 999_000_000))
+                c2 = s.construct()
+                for op in ops:
+                    s.run_op(c2, op)
+                v2 = cc.view_of(c2)
+                res["evaluations"] += 1
+                if v1 != d1 or v2 != d2:
+                    res["failures"].append({"case": {"loc": loc, "sfx": sfx, "first": d1, "second": d2},
+                                            "what": "first Config read %r; after the rewrite a second Config "
+                                                    "on the same path read %r (file holds %r)" % (v1, v2, d2)})
+                    break
+            except Exception as e:
+                res["failures"].append({"case": {"loc": loc, "sfx": sfx}, "what": "raised %r" % (e,)})
+                break
+            finally:
+                s.close()
+        return res
 
     def check_executor(self, seed, n):
         """At the Executor level the environment must be read once the collection
